@@ -263,7 +263,7 @@ def run(report, p):
     for c in ctor:
         cn = g.node_for(c)
         r5.instance(dh, c, "exit-12 exception constructed")
-        tests = [t for t in g.nodes if t.kind == "test" and g.dominates(t, cn) and not g.postdominates(cn, t)]
+        tests = [t for t, l in g.control_deps(cn) if t.kind == "test"]
         uses_map = any("failures" in norm(t.ast) for t in tests)
         r5.check(uses_map, dh, c, "the exit-12 decision does not depend on the recorded failures")
         for t in tests:
